@@ -4,15 +4,26 @@
 package c11
 
 import (
+	"crypto"
+	"crypto/ecdsa"
+	"crypto/elliptic"
+	"crypto/rand"
 	"fmt"
+	"net/http"
 	"os"
+	"path/filepath"
+	"sort"
 	"strings"
 	"testing"
 
+	"github.com/go-jose/go-jose/v4"
+
 	"github.com/dadrus/heimdall/internal/config"
+	"github.com/dadrus/heimdall/internal/keystore"
 	ck "github.com/dadrus/heimdall/internal/verif/cachekit"
 	"github.com/dadrus/heimdall/internal/verif/vkit/app"
 	"github.com/dadrus/heimdall/internal/verif/vkit/core"
+	"github.com/dadrus/heimdall/internal/x/pkix/pemx"
 )
 
 type env struct {
@@ -24,6 +35,87 @@ type env struct {
 	nonce   int
 	det     []detConfig
 	jwtKeys map[string]*ck.SigningKey
+	// key stores of jwt signers: label -> PEM file; materials: name of the key material -> public key (to tell which
+	// key a handed out JWT was signed with)
+	stores    map[string]string
+	materials map[string]crypto.PublicKey
+}
+
+// ksEntry is one key of a signer key store: which key material is published under which key id.
+type ksEntry struct{ kid, material string }
+
+// writeKeyStores creates the signer key stores of the jwt finalizer prototypes: the same key material under different key
+// ids, different material under the same key id, and a store holding one key under two ids.
+func (e *env) writeKeyStores(dir string) error {
+	e.stores = map[string]string{"default": e.signer}
+	e.materials = map[string]crypto.PublicKey{}
+	ks, err := keystore.NewKeyStoreFromPEMFile(e.signer, "")
+	if err != nil {
+		return err
+	}
+	for _, en := range ks.Entries() {
+		e.materials["default:"+en.KeyID] = en.PrivateKey.Public()
+	}
+	keys := map[string]*ecdsa.PrivateKey{}
+	for _, m := range []string{"key-a", "key-b"} {
+		k, err := ecdsa.GenerateKey(elliptic.P256(), rand.Reader)
+		if err != nil {
+			return err
+		}
+		keys[m] = k
+		e.materials[m] = k.Public()
+	}
+	for label, entries := range map[string][]ksEntry{
+		"a-as-k1":   {{"k1", "key-a"}},
+		"a-as-k2":   {{"k2", "key-a"}},
+		"b-as-k1":   {{"k1", "key-b"}},
+		"b-as-k2":   {{"k2", "key-b"}},
+		"a-k1-b-k2": {{"k1", "key-a"}, {"k2", "key-b"}},
+		"b-k1-a-k2": {{"k1", "key-b"}, {"k2", "key-a"}},
+	} {
+		var opts []pemx.EntryOption
+		for _, en := range entries {
+			opts = append(opts, pemx.WithECDSAPrivateKey(keys[en.material], pemx.WithHeader("X-Key-ID", en.kid)))
+		}
+		pem, err := pemx.BuildPEM(opts...)
+		if err != nil {
+			return err
+		}
+		p := filepath.Join(dir, fmt.Sprintf("signer-%s-%d.pem", label, os.Getpid()))
+		if err = os.WriteFile(p, pem, 0o600); err != nil {
+			return err
+		}
+		e.stores[label] = p
+	}
+	return nil
+}
+
+// signedWith tells for every JWT among the upstream headers with which of the known key materials its signature verifies.
+func (e *env) signedWith(h http.Header) string {
+	var notes []string
+	for name, vs := range h {
+		for _, v := range vs {
+			_, tok, ok := strings.Cut(v, " ")
+			if !ok {
+				tok = v
+			}
+			jws, err := jose.ParseSigned(tok, []jose.SignatureAlgorithm{jose.ES256, jose.ES384, jose.ES512, jose.PS256, jose.RS256})
+			if err != nil {
+				continue
+			}
+			var by []string
+			for m, pub := range e.materials {
+				if _, err = jws.Verify(pub); err == nil {
+					by = append(by, m)
+				}
+			}
+			sort.Strings(by)
+			e.r.Count("issued_jwts_signature_checked", 1)
+			notes = append(notes, fmt.Sprintf("%s: jwt signature verifies with %v", name, by))
+		}
+	}
+	sort.Strings(notes)
+	return strings.Join(notes, "; ")
 }
 
 func (e *env) next() string { e.nonce++; return fmt.Sprintf("n%d", e.nonce) }
@@ -66,7 +158,9 @@ func (e *env) exec(ms mstep, c *ck.RecCache) ck.Outcome {
 		if err != nil {
 			return ck.Outcome{Err: "create", ErrText: err.Error()}
 		}
-		return ck.RunExec(m, ms.Step, c)
+		out, raw := ck.RunExecRaw(m, ms.Step, c)
+		out.Notes = e.signedWith(raw)
+		return out
 	}
 	return ck.Outcome{Err: "create", ErrText: "unknown kind " + ms.Kind}
 }
@@ -100,9 +194,15 @@ func TestC11(t *testing.T) {
 		"pipeline output, rule level policy/override, other prototype with the same endpoint, subject id where no template looks at it, endpoint URL query parts net/url cannot parse) " +
 		"and (3) pairs shifted across component boundaries ((ab,c) vs (a,bc); a value moving from one forwarded header/cookie to another one which is absent): " +
 		"the sequences A,B,A and B,A,B are executed with the recording in-memory cache and with the no-op cache; outcome (error kind, subject, outputs, upstream headers) must be equal per step. " +
-		"A pair is non-trivial when the cache-off outcomes of A and B differ (a wrong reuse is visible); a determinism case is non-trivial when a value was stored and looked up again.")
+		"A pair is non-trivial when the cache-off outcomes of A and B differ (a wrong reuse is visible); a determinism case is non-trivial when a value was stored and looked up again. " +
+		"The remote systems answer with numbers, nested objects and lists (announced as JSON and as YAML) which rule level expressions calculate with; the outcome includes the kinds " +
+		"(string / float64 / int / list / object) of subject attributes and pipeline outputs, the JOSE header of issued JWTs and the key material their signature verifies with. " +
+		"Introspection / jwt authenticators also discover their endpoints through a metadata document, with trusted issuers absent, equal to, different from and a superset of the " +
+		"metadata issuer, and issuers narrowed on rule level; jwt finalizers use signer key stores with the same key material under different key ids, different material under the same id, " +
+		"several keys selected by key_id, and different signer names.")
 	r.Assume("test servers answer as a pure function of the received request (method, URI, Authorization/Cookie/Content-Type/Accept/X-* headers, body)",
-		"JWTs issued by the jwt finalizer are compared by their claims without iat/nbf/exp/jti")
+		"JWTs issued by the jwt finalizer are compared by their JOSE header, their claims without iat/nbf/exp/jti and the key their signature verifies with",
+		"two values of different kinds (float64 / int / string as json.Number) are different values for the pipeline even if they render to the same JSON text: CEL has no overloads across them")
 
 	dir := os.Getenv("VERIF_RUNDIR")
 	if dir == "" {
@@ -119,6 +219,10 @@ func TestC11(t *testing.T) {
 		r.Inconclusive("signer key store: " + err.Error())
 		r.End()
 	}
+	if err = e.writeKeyStores(dir); err != nil {
+		r.Inconclusive("signer key stores: " + err.Error())
+		r.End()
+	}
 	e.a, err = app.New(app.Options{Mutate: func(c *config.Configuration) { e.prototypes(c) }})
 	if err != nil {
 		r.Inconclusive("app: " + err.Error())
@@ -132,6 +236,8 @@ func TestC11(t *testing.T) {
 	r.Require("determinism_cases_with_reuse", r.Counter("determinism_nontrivial"), 20)
 	r.Require("nontrivial_pairs", r.Counter("pairs_nontrivial"), 60)
 	r.Require("cache_hits", r.Counter("cache_hits"), 500)
+	r.Require("issued_jwts_signature_checked", r.Counter("issued_jwts_signature_checked"), 100)
+	r.Require("outcomes_with_value_kinds_compared", r.Counter("outcomes_with_value_kinds_compared"), 200)
 	r.End()
 }
 
@@ -252,6 +358,9 @@ func (e *env) runPair(pc pairCase) {
 			_, hits, _ := ck.Summary(on.EventsSince(n0))
 			oOff := e.exec(ms, off)
 			eq := oOn.Comparable() == oOff.Comparable()
+			if oOn.Types != "" && oOff.Types != "" {
+				e.r.Count("outcomes_with_value_kinds_compared", 1)
+			}
 			rec.Steps = append(rec.Steps, stepCmp{Which: string(order[i]), CacheOn: oOn, CacheOff: oOff, Equal: eq, Hit: hits > 0})
 			if !eq && firstBad < 0 {
 				firstBad = i
@@ -288,8 +397,12 @@ func (e *env) runPair(pc pairCase) {
 			continue
 		}
 		bad := rec.Steps[firstBad]
+		sOn, sOff := brief(bad.CacheOn), brief(bad.CacheOff)
+		if onlyTypesDiffer(bad) {
+			sOn, sOff = "value kinds "+typeDiff(bad.CacheOn.Types, bad.CacheOff.Types), "value kinds "+typeDiff(bad.CacheOff.Types, bad.CacheOn.Types)
+		}
 		e.r.Violation(pairSignature(pc, bad), fmt.Sprintf("%s, pair differing in %s, order %s step %d (%s): cache on => %s, cache off => %s",
-			pc.Mechanism, pc.Component, order, firstBad+1, bad.Which, brief(bad.CacheOn), brief(bad.CacheOff)), rec)
+			pc.Mechanism, pc.Component, order, firstBad+1, bad.Which, sOn, sOff), rec)
 	}
 }
 
@@ -298,17 +411,58 @@ func brief(o ck.Outcome) string {
 		return "error:" + o.Err
 	}
 	s := "ok " + o.Subject + o.Outputs + o.Upstream
+	if o.Notes != "" {
+		s = "ok [" + o.Notes + "] " + o.Subject + o.Outputs + o.Upstream
+	}
 	if len(s) > 160 {
 		s = s[:160] + "..."
 	}
 	return s
 }
 
+// onlyTypesDiffer: both evaluations succeeded with the same subject and upstream headers, but the kinds of the values the
+// pipeline continues with are not the same (which may show in the rendering of the values as well: precision of large numbers).
+func onlyTypesDiffer(bad stepCmp) bool {
+	a, b := bad.CacheOn, bad.CacheOff
+	return a.Err == b.Err && a.Subject == b.Subject && a.Upstream == b.Upstream && a.Notes == b.Notes && a.Types != b.Types
+}
+
+// firstKinds returns the kinds at the first position at which the shapes differ.
+func firstKinds(on, off string) (string, string) {
+	i := 0
+	for i < len(on) && i < len(off) && on[i] == off[i] {
+		i++
+	}
+	word := func(s string) string {
+		from := strings.LastIndexAny(s[:i], ":,{[") + 1
+		to := len(s)
+		if j := strings.IndexAny(s[i:], ",}]"); j >= 0 {
+			to = i + j
+		}
+		w := s[from:to]
+		if k := strings.IndexAny(w, ":{["); k >= 0 {
+			w = "structure"
+		}
+		return w
+	}
+	return word(on), word(off)
+}
+
+// typeDiff shows the surroundings of the first position at which shape a differs from shape b.
+func typeDiff(a, b string) string {
+	i := 0
+	for i < len(a) && i < len(b) && a[i] == b[i] {
+		i++
+	}
+	return "..." + a[max(i-50, 0):min(i+20, len(a))] + "..."
+}
+
 // pairSignature classifies a disagreement from the failing case: which component differed, and how the decision changed.
 func pairSignature(pc pairCase, bad stepCmp) string {
 	m := pc.Mechanism
+	comp, format, _ := strings.Cut(pc.Component, ":")
 	policyBypass := bad.CacheOn.Err == "" && (bad.CacheOff.Err == "authorization" || bad.CacheOff.Err == "authentication") && bad.Hit
-	switch pc.Component {
+	switch comp {
 	case "rule-level-expressions", "rule-level-assertions", "other-prototype-assertions":
 		if policyBypass {
 			return "cache-hit-skips-rule-assertions:" + m
@@ -336,6 +490,24 @@ func pairSignature(pc pairCase, bad stepCmp) string {
 	case "http-vary-header":
 		if bad.Hit {
 			return "httpcache-ignores-vary"
+		}
+	case "response-number-in-expression", "rule-level-numeric-expression", "response-list-and-object-in-expression":
+		if bad.Hit && bad.CacheOn.Err != bad.CacheOff.Err {
+			return "cache-hit-changes-expression-verdict:" + m + ":" + format + "-answer"
+		}
+	case "token-issuer-with-metadata", "rule-level-issuers-with-metadata", "other-prototype-issuers-with-metadata":
+		if bad.Hit && bad.CacheOn.Err != bad.CacheOff.Err {
+			return "cache-hit-validated-with-other-trusted-issuers:" + m
+		}
+	case "signer-key-id-same-material", "signer-material-same-key-id", "signer-selected-key-of-store", "signer-name":
+		if bad.Hit {
+			return "signer-identity-not-in-cache-key:" + m + ":" + pc.Component
+		}
+	}
+	// the same values in another representation: a leaf of the subject attributes / outputs changes its kind on a cache hit
+	if bad.Hit && onlyTypesDiffer(bad) {
+		if kOn, kOff := firstKinds(bad.CacheOn.Types, bad.CacheOff.Types); kOn != "structure" && kOff != "structure" {
+			return "cache-hit-changes-value-kinds:" + m + ":" + kOff + "-becomes-" + kOn
 		}
 	}
 	if pc.Class == "boundary-shift" && bad.Hit {
